@@ -737,7 +737,8 @@ def symbolic_run(contract: Contract, tier="quick", mutate=None, stop_on=None) ->
                 if ts - t0 > budget:
                     verdict, backend, model = "unknown", "budget-exhausted", None
                 else:
-                    verdict, backend, model = core.solve(ob.hyps + [z3.Not(ob.goal)], timeout, want_model=True)
+                    verdict, backend, model = core.solve(ob.hyps + [z3.Not(ob.goal)], timeout, want_model=True,
+                                                         inproc_budget=getattr(contract, "inproc_budget", 4.0))
                     if verdict == "sat":
                         from . import spec as _spec
                         r2 = _spec.confirm_sat(ob.hyps + [z3.Not(ob.goal)], timeout)
@@ -769,7 +770,8 @@ def symbolic_run(contract: Contract, tier="quick", mutate=None, stop_on=None) ->
             return hit
 
         cover = 0
-        for c, outcome in core.explore(run, max_paths=contract.max_paths):
+        for c, outcome in core.explore(run, max_paths=contract.max_paths, feas_retry=getattr(contract, "feas_retry", True),
+                                       feas_timeout=getattr(contract, "feas_timeout", 2.0)):
             res.paths += 1
             if time.time() - t0 > budget:
                 raise core.PathLimit("time budget of %ds exhausted during path exploration" % budget)
